@@ -35,6 +35,9 @@ def C(v):
 
 
 UNSUPPORTED = []     # statement kinds met by any interpreter of this process that it cannot model
+OPAQUE = []          # (function, what, location): constructs whose effect the engine treats as unknown
+                     # (unsupported statements, calls of values it cannot resolve to code, unknown
+                     # expression kinds) - met by any interpreter of this process
 
 
 CONST_NONE = C(None)
@@ -97,6 +100,7 @@ class _Activation:
         self.returns = []     # (pc, term)
         self.return_ovs = []  # overlay snapshot at each return
         self.depth = depth
+        self.breaks = []      # states at `break` statements of the loop being interpreted
 
 
 class Summary:
@@ -269,6 +273,7 @@ class Interp:
             return None
         if isinstance(s, ast.Break):
             self._emit("break", st, s, act)
+            act.breaks.append(st)
             return None
         if isinstance(s, ast.With):
             for it in s.items:
@@ -295,7 +300,12 @@ class Interp:
             return outs[0] if outs else None
         if isinstance(s, ast.Delete):
             return st
-        if isinstance(s, (ast.FunctionDef, ast.ClassDef)):
+        if isinstance(s, ast.FunctionDef):
+            st.env[s.name] = self._closure(s, st, act)
+            return st
+        if isinstance(s, ast.Match):
+            return self._block(self._desugar_match(s), st, act)
+        if isinstance(s, ast.ClassDef):
             st.env[s.name] = ("unknown", f"nested {s.name}")
             return st
         # statement kinds the repository does not use today (match, async, ...): keep going with
@@ -304,6 +314,7 @@ class Interp:
         self._emit("unsupported", st, s, act, what=type(s).__name__)
         UNSUPPORTED.append(f"{type(s).__name__} at {act.fi.module.path}:{s.lineno} "
                            f"({act.fi.qualname})")
+        self._opaque(act, f"{type(s).__name__} statement", f"{act.fi.module.path}:{s.lineno}")
         for n in ast.walk(s):
             if isinstance(n, ast.Name) and isinstance(n.ctx, ast.Store):
                 st.env[n.id] = ("unknown", f"{n.id} (assigned in unsupported {type(s).__name__})")
@@ -451,7 +462,10 @@ class Interp:
         self._assign(s.target, elem, body_st, act, s)
         nret = len(act.returns)
         nev = len(self.events)
+        nbrk = len(act.breaks)
         end = self._block(s.body, body_st, act)
+        brks = act.breaks[nbrk:]
+        del act.breaks[nbrk:]
         self.loops[lid]["events"] = (nev, len(self.events))
         post_pc = st.pc
         first = body_st.pc[len(st.pc)] if len(body_st.pc) > len(st.pc) else ("inloop", lid)
@@ -468,6 +482,30 @@ class Interp:
         for n in self._assigned_names([_expr_stmt(s.target)]):
             st.env[n] = body_st.env.get(n, ("undef", n))
         st.pc = post_pc
+        if brks:
+            # `flag = <const>; break` under a condition C: after the loop the variable holds that
+            # constant exactly when some iteration satisfies C (search loops with a result flag)
+            bconds = [("exists", mk[1], self._after_marker(b.pc, mk)) for b in brks]
+            for n in assigned:
+                carried = ("loopcarried", n, lid)
+                fin = end.env.get(n) if end is not None else carried
+                base = st.env[n]
+                if fin == carried or fin is None:
+                    base = saved[n] if saved[n] is not None else ("undef", n)
+                vals = [b.env.get(n) for b in brks]
+                changed = [(c, v) for c, v in zip(bconds, vals) if v is not None and v != carried]
+                if not changed:
+                    st.env[n] = base
+                    continue
+                distinct = {v for _, v in changed}
+                if len(distinct) > 1 or not all(is_const(v) for v in distinct):
+                    st.env[n] = ("unknown", f"{n} (value at the iteration that breaks)")
+                    continue
+                v = changed[0][1]
+                cond = changed[0][0] if len(changed) == 1 else ("or", tuple(c for c, _ in changed))
+                st.env[n] = v if base == v else ("phi", cond, v, base)
+            if s.orelse:
+                st.pc = st.pc + tuple(("not", c) for c in bconds)
         if s.orelse:
             return self._block(s.orelse, st, act)
         return st
@@ -649,9 +687,17 @@ class Interp:
             return ("unknown", repr(v))
         return C(v)
 
+    def _opaque(self, act, what, loc):
+        """record a construct whose effect is treated as unknown, with the files of every function
+        on the call stack (what is derived about any of them may be incomplete)"""
+        files = tuple(sorted({a.fi.module.path for a in self.stack} | {act.fi.module.path}))
+        OPAQUE.append((act.fi.qualname, what, loc, files))
+
     def _eval(self, e, st, act):
         m = getattr(self, "_e_" + type(e).__name__, None)
         if m is None:
+            self._opaque(act, f"{type(e).__name__} expression",
+                         f"{act.fi.module.path}:{getattr(e, 'lineno', 0)}")
             return ("unknown", ast.unparse(e))
         return m(e, st, act)
 
@@ -819,6 +865,13 @@ class Interp:
         if base[0] == "phi":
             a, b = self._getitem(base[2], idx), self._getitem(base[3], idx)
             return a if a == b else ("phi", base[1], a, b)
+        if base[0] in ("tuple", "list") and 2 <= len(base[1]) <= 8 and not is_const(idx) \
+                and all(x[0] in ("classref", "funcref", "closure", "boundmethod")
+                        for x in base[1]):
+            # a dispatch table of callables indexed by a run-time code: one alternative per entry
+            # (what is then called / compared is known in each alternative)
+            return ("cases", tuple(((("cmp", "==", idx, C(i)),), x)
+                                   for i, x in enumerate(base[1])))
         return ("sub", base, idx)
 
     def _e_Tuple(self, e, st, act):
@@ -926,7 +979,8 @@ class Interp:
             except Exception:
                 pass
         if op in ("is", "isnot") and is_const(b) and b[1] is None \
-                and a[0] in ("new", "obj", "classref", "tuple", "listobj", "dictobj"):
+                and a[0] in ("new", "obj", "classref", "tuple", "listobj", "dictobj", "fstr",
+                             "closure", "list", "comp", "setlit"):
             return C(op == "isnot")
         if op in ("==", "!=", "is", "isnot") and a[0] == "classref" and b[0] == "classref":
             return C((a == b) == (op in ("==", "is")))
@@ -1000,7 +1054,107 @@ class Interp:
         return ("starred", self._eval(e.value, st, act))
 
     def _e_Lambda(self, e, st, act):
-        return ("unknown", "lambda")
+        fn = ast.FunctionDef(name="<lambda>", args=e.args,
+                             body=[ast.Return(value=e.body, lineno=e.lineno,
+                                              col_offset=e.col_offset)],
+                             decorator_list=[], returns=None, type_comment=None, type_params=[],
+                             lineno=e.lineno, col_offset=e.col_offset)
+        return self._closure(fn, st, act)
+
+    def _closure(self, node, st, act):
+        """a local function / lambda: a callable value that remembers the variables visible where
+        it was defined (captured by value at definition time) and is inlined when called"""
+        from .model import FuncInfo
+        fi = FuncInfo(act.fi.module, None, node)
+        fi.name = f"{act.fi.qualname}.<locals>.{node.name}@{node.lineno}"
+        key = self.new_id()
+        if not hasattr(self, "closures"):
+            self.closures = {}
+        self.closures[key] = (fi, dict(st.env))
+        return ("closure", key, fi.name)
+
+    _match_counter = 0
+
+    def _desugar_match(self, s):
+        """`match subject: case ...` as an if/elif chain over the patterns the language defines
+        structurally: literals and constants (==), None/True/False (is), class patterns with
+        keyword sub-patterns (isinstance + attribute tests, captures bound first), captures,
+        wildcards, or-patterns and guards.  Anything else (sequence / mapping / positional class
+        patterns) is left to the unsupported-statement path."""
+        Interp._match_counter += 1
+        subj = f"__match_subject_{Interp._match_counter}"
+
+        def L(name):
+            return ast.Name(id=name, ctx=ast.Load())
+
+        def pat(p, val):
+            """(test expr or None for 'always', [assignments])"""
+            if isinstance(p, ast.MatchValue):
+                return ast.Compare(left=val, ops=[ast.Eq()], comparators=[p.value]), []
+            if isinstance(p, ast.MatchSingleton):
+                return ast.Compare(left=val, ops=[ast.Is()],
+                                   comparators=[ast.Constant(value=p.value)]), []
+            if isinstance(p, ast.MatchAs):
+                if p.pattern is None:
+                    binds = [] if p.name is None else [ast.Assign(
+                        targets=[ast.Name(id=p.name, ctx=ast.Store())], value=val)]
+                    return None, binds
+                t, b = pat(p.pattern, val)
+                if p.name is not None:
+                    b = b + [ast.Assign(targets=[ast.Name(id=p.name, ctx=ast.Store())], value=val)]
+                return t, b
+            if isinstance(p, ast.MatchOr):
+                tests = []
+                for q in p.patterns:
+                    t, b = pat(q, val)
+                    if b:
+                        raise NotImplementedError
+                    if t is None:
+                        return None, []
+                    tests.append(t)
+                return ast.BoolOp(op=ast.Or(), values=tests), []
+            if isinstance(p, ast.MatchClass) and not p.patterns:
+                tests = [ast.Call(func=L("isinstance"), args=[val, p.cls], keywords=[])]
+                binds = []
+                for attr, q in zip(p.kwd_attrs, p.kwd_patterns):
+                    t, b = pat(q, ast.Attribute(value=val, attr=attr, ctx=ast.Load()))
+                    if t is not None:
+                        tests.append(t)
+                    binds += b
+                return (tests[0] if len(tests) == 1 else
+                        ast.BoolOp(op=ast.And(), values=tests)), binds
+            raise NotImplementedError
+        try:
+            chain = None
+            for case in reversed(s.cases):
+                t, binds = pat(case.pattern, L(subj))
+                body = list(binds) + list(case.body)
+                if case.guard is not None:
+                    if binds:
+                        # captures must be visible to the guard: bind first, then test the guard;
+                        # a failed guard falls through to the remaining cases
+                        tail = [chain] if chain is not None else []
+                        inner = ast.If(test=case.guard, body=list(case.body), orelse=tail)
+                        body = list(binds) + [inner]
+                        chain = ast.If(test=t if t is not None else ast.Constant(value=True),
+                                       body=body, orelse=tail)
+                        continue
+                    t = case.guard if t is None else ast.BoolOp(op=ast.And(),
+                                                                values=[t, case.guard])
+                if t is None:
+                    chain = ast.If(test=ast.Constant(value=True), body=body, orelse=[])
+                else:
+                    chain = ast.If(test=t, body=body, orelse=[chain] if chain is not None else [])
+            out = [ast.Assign(targets=[ast.Name(id=subj, ctx=ast.Store())], value=s.subject)]
+            if chain is not None:
+                out.append(chain)
+            for n in out:
+                ast.copy_location(n, s)
+                ast.fix_missing_locations(n)
+            return out
+        except NotImplementedError:
+            return [ast.AsyncWith(items=[], body=list(s.cases[0].body) if s.cases else [],
+                                  lineno=s.lineno, col_offset=s.col_offset)]
 
     # ================================================================== calls
     def class_of(self, t):
@@ -1116,6 +1270,10 @@ class Interp:
             return mk_cases((pc, self._call_term(t, args, kwargs, star, dstar,
                                                  _State(st.env, st.pc + tuple(pc), st.ov), act, e))
                             for pc, t in ft[1])
+        if k == "closure":
+            self.resolved_calls += 1
+            fi, cenv = self.closures[ft[1]]
+            return self._inline(fi, args, kwargs, st, act, e, dstar=dstar, closure_env=cenv)
         if k == "classref":
             self.resolved_calls += 1
             return self._construct(ft[1], args, kwargs, st, act, e, dstar)
@@ -1178,10 +1336,14 @@ class Interp:
                                                   "global", "clsattr"):
             self.unresolved.append((f"{act.fi.module.path}:{e.lineno}",
                                     f"call of {k} term"))
+            self._opaque(act, f"call of a computed callable ({k})",
+                         f"{act.fi.module.path}:{e.lineno}")
             self._emit("call", st, e, act, fname="?dynamic", args=tuple(args),
                        kwargs=tuple(sorted(kwargs.items())), callee=ft, external=False)
             return ("call", "?dynamic", (ft,) + tuple(args), tuple(sorted(kwargs.items())),
                     None)
+        self._opaque(act, f"call of a computed callable ({k})",
+                     f"{act.fi.module.path}:{getattr(e, 'lineno', 0)}")
         self._emit("call", st, e, act, fname="?" + k, args=tuple(args),
                    kwargs=tuple(sorted(kwargs.items())), callee=ft, external=False)
         return ("call", "?" + k, (ft,) + tuple(args), tuple(sorted(kwargs.items())), None)
@@ -1218,6 +1380,10 @@ class Interp:
                 else:
                     h["dyn"].append((("unknown", "init"), args[0], st.pc))
             return ("dictobj", oid)
+        if fname == "builtins.getattr" and len(args) == 2 and is_const(args[1]) \
+                and isinstance(args[1][1], str) and not kwargs:
+            # getattr(obj, "name") with a literal name (e.g. from an unrolled table) is obj.name
+            return self._getattr(args[0], args[1][1], st, act, e)
         if fname == "builtins.isinstance" and len(args) == 2:
             r = self._isinstance(args[0], args[1])
             if r is not None:
@@ -1323,7 +1489,7 @@ class Interp:
             self._inline(init, [obj] + list(args), kwargs, st, act, e, dstar=dstar)
         return obj
 
-    def _inline(self, fi, args, kwargs, st, act, node, dstar=(), how="typed"):
+    def _inline(self, fi, args, kwargs, st, act, node, dstar=(), how="typed", closure_env=None):
         if fi.fq in self.no_inline or act.depth >= self.max_depth \
                 or any(a.fi is fi for a in self.stack):
             t = ("call", fi.fq, tuple(args), tuple(sorted(kwargs.items())), None)
@@ -1388,6 +1554,8 @@ class Interp:
                    args=tuple(args), kwargs=tuple(sorted(kwargs.items())))
         self.stack.append(callee_act)
         try:
+            if closure_env:
+                env = dict(closure_env, **env)
             end = self._block(fi.node.body, _State(env, st.pc, dict(st.ov)), callee_act)
         finally:
             self.stack.pop()
